@@ -229,6 +229,19 @@ class Layout:
             for s in blk["s"]:
                 if s["r"].get("k") == "ref" and s["r"].get("mut") and ((s["r"]["pl"]["l"] in alias and not s["r"]["pl"].get("p")) or (s["r"]["pl"]["l"] in wrap and newtype_src(s["r"]["pl"]))):
                     mutrefs[s["d"]["l"]] = True
+        # the reference may be handed on (`append_key(&mut buf, ..)` with the helper inlined: `p = move r`, `q = &mut (*p)`)
+        grew = True
+        while grew:
+            grew = False
+            for blk in b["blocks"]:
+                for s in blk["s"]:
+                    if s["d"].get("p") or s["d"]["l"] in mutrefs:
+                        continue
+                    rv = s["r"]
+                    if rv.get("k") == "use" and rv["op"].get("k") in ("move", "copy") and not rv["op"]["pl"].get("p") and rv["op"]["pl"]["l"] in mutrefs:
+                        mutrefs[s["d"]["l"]] = True; grew = True
+                    elif rv.get("k") == "ref" and rv.get("mut") and rv["pl"].get("p") == ["*"] and rv["pl"]["l"] in mutrefs:
+                        mutrefs[s["d"]["l"]] = True; grew = True
         for i in order:
             t = b["blocks"][i].get("t") or {}
             if t.get("k") != "call" or t["f"].get("k") != "fn":
